@@ -1,0 +1,18 @@
+//go:build verif
+// +build verif
+
+package utils
+
+import (
+	uuid "github.com/satori/go.uuid"
+)
+
+// VerifCreateWithId registers a waiter under a caller-chosen notification id,
+// so the outcome of a byte-identical log entry can be captured on any replica.
+func (this *Notificator) VerifCreateWithId(id uuid.UUID, bufSize int) <-chan interface{} {
+	c := make(chan interface{}, bufSize)
+	this.mu.Lock()
+	this.chans[id] = c
+	this.mu.Unlock()
+	return c
+}
